@@ -7,6 +7,7 @@ import (
 
 	"github.com/deepteams/webp/internal/bitio"
 	"github.com/deepteams/webp/internal/dsp"
+	"github.com/deepteams/webp/internal/verifhook"
 )
 
 // lossyDecoderPool caches Decoder structs between decode calls so that the
@@ -18,6 +19,7 @@ var lossyDecoderPool sync.Pool
 // fInfo, mbData, slab via cacheY) are kept for reuse-or-grow in initFrame.
 func acquireDecoder() *Decoder {
 	if v := lossyDecoderPool.Get(); v != nil {
+		verifhook.Pool("lossy.decoderPool", true)
 		dec := v.(*Decoder)
 		// Zero mutable state — keep slice backing arrays for reuse.
 		dec.frmHdr = FrameHeader{}
